@@ -194,9 +194,11 @@ def main():
     kw += ",\n".join(f"  {lean_chars(k)}" for k in keywords)
     kw += "\n]\n\n/-- Same list as strings (for reading; not used by proofs). -/\ndef keywordStrings : List String := [" + ", ".join(lean_str(k) for k in keywords) + "]\n\nend Cli.Generated\n"
 
-    tp = hdr + "namespace Cli.Generated\n\n"
-    tp += "/-- `render_template`: the `.replace(pattern, &values.field)` chain, in order. -/\n"
-    tp += "def placeholders : List (List Char × String) := [\n" + ",\n".join(f"  ({lean_chars(p)}, {lean_str(f)})" for p, f in placeholders) + "\n]\n\n"
+    tp = "import Cli.Values\n" + hdr + "namespace Cli.Generated\n\n"
+    tp += "/-- `render_template`: the patterns of the `.replace(pattern, &values.field)` chain, in order. -/\n"
+    tp += "def placeholderPatterns : List (List Char) := [\n" + ",\n".join(f"  {lean_chars(p)}" for p, f in placeholders) + "\n]\n\n"
+    tp += "/-- … and the replacement of each pattern, in the same order. -/\n"
+    tp += "def placeholderValues (values : Cli.TemplateValues) : List (List Char) := [" + ", ".join(f"values.{f}" for p, f in placeholders) + "]\n\n"
     tp += "/-- `TemplateValues::new`: field := expression, as written in the source. -/\n"
     tp += "def valuesShape : List (String × String) := [\n" + ",\n".join(f"  ({lean_str(k)}, {lean_str(v)})" for k, v in values) + "\n]\n\n"
     tp += "/-- `create_project_directories`: the directories, in loop order (components below the project root). -/\n"
